@@ -150,6 +150,9 @@ func (x *Exec) sortOf(t types.Type) string {
 			if adt, ok := x.adts[qualName(n)]; ok {
 				return x.adtSort(n, adt)
 			}
+			if so, ok := x.valueTreeSort(t); ok {
+				return so
+			}
 		}
 		return "Ref"
 	case *types.Slice:
@@ -187,6 +190,9 @@ func (x *Exec) sortOf(t types.Type) string {
 			return sfSort
 		case "time.Duration", "reflect.Kind":
 			return "Int"
+		}
+		if so, ok := x.valueTreeSort(t); ok {
+			return so
 		}
 		switch u := t.Underlying().(type) {
 		case *types.Struct:
@@ -295,6 +301,8 @@ func (x *Exec) zeroOfSort(s string, t types.Type) Term {
 		switch si.Kind {
 		case "list":
 			return Term{S: "nil_" + s, Sort: s}
+		case "node":
+			return Term{S: "n_nil_" + s, Sort: s}
 		case "trace":
 			return Term{S: "emp_" + s, Sort: s}
 		case "fn":
